@@ -37,6 +37,22 @@ def cases(rng, tier):
             w = C.Case("repair_window", [k * t, t, 1, 1, 1, 0, start, n] + data)
             w.tag = "window"
             cs.append(w)
+    # tuples at the boundaries of the degree table: X with v(X) in {f[d]-1, f[d]} (a comparison flipped there changes
+    # one packet in ~35000); found by scanning v(X) with the Spec
+    f_tab = [5243, 529531, 704294, 791675, 844104, 879057, 904023, 922747, 937311, 948962, 958494, 966438, 973160, 978921, 983914,
+             988283, 992138, 995565, 998631, 1001391, 1003887, 1006157, 1008229, 1010129, 1011876, 1013490, 1014983, 1016370, 1017662]
+    edge = set(f_tab) | set(x - 1 for x in f_tab)
+    for (kp, j) in ((10, 254), (36, 267)) if tier == "quick" else ((10, 254), (26, 80), (36, 267), (101, 562)):
+        chunk, nchunks = 4000, 16
+        import concurrent.futures as cf
+        with cf.ThreadPoolExecutor(max_workers=C.NCPU) as ex:
+            outs = list(ex.map(lambda i: C.run_model([C.Case("spec_v_list", [j, kp + i * chunk, chunk])])[0].split()[1:], range(nchunks)))
+        hits = [kp + ci * chunk + i for ci, vs in enumerate(outs) for i, v in enumerate(vs) if int(v) in edge][:6]
+        data = CG.rand_data(rng, kp * 2)
+        for x in hits:
+            w = C.Case("repair_window", [kp * 2, 2, 1, 1, 1, 0, x - kp, 1] + data)
+            w.tag = "window"
+            cs.append(w)
     # multi-block / sub-block objects: implementation vs model only (the Spec oracle is single-block)
     for _ in range(15 if tier == "quick" else 150):
         f, t, z, nsub, al = CG.obj_config(rng, 600)
@@ -71,7 +87,7 @@ def evaluate(cs, rep, tier):
     return {"disagreements": dis, "counterexamples": counter,
             "stats": {"evaluations": len(cs) * 4 + len(sc), "distinct_nontrivial": len(set(c.key() for c in cs if c.tag in ("first", "window"))),
                       "repair_packets_vs_spec": nrep,
-                      "samples": [cs[9].impl_line()[:160] + " ... -> " + impl[9][:80]],
+                      "samples": [cs[min(9, len(cs) - 1)].impl_line()[:160] + " ... -> " + impl[min(9, len(cs) - 1)][:80]],
                       "input_distribution": {"K_values": len(set(c.args[0] // c.args[1] for c in cs if c.tag == "first")), "windows": sum(1 for c in cs if c.tag == "window"), "multi_block_objects": sum(1 for c in cs if c.tag == "multi")}}}
 
 
@@ -79,5 +95,31 @@ def kernel_ok(c):
     return c.tag in ("first", "window") and c.args[0] // c.args[1] <= 12 and len(c.args) < 150
 
 
+def changed_table_rows():
+    """K' of the Table-2 rows that differ between the current source (Gen) and the RFC snapshot (Spec)"""
+    import os, re
+    gen = open(os.path.join(C.COQ, "Gen", "SysTables.v")).read()
+    spec = open(os.path.join(C.COQ, "Spec", "Tables_RFC.v")).read()
+    rows_g = re.findall(r"\((\d+), (\d+), (\d+), (\d+), (\d+)\)", gen[gen.index("TABLE2") : gen.index("P1_TABLE")])
+    sp = spec[spec.index("RFC_TABLE2") :]
+    rows_s = re.findall(r"\((\d+), (\d+), (\d+), (\d+), (\d+)\)", sp)[: len(rows_g)]
+    return [int(g[0]) for g, r in zip(rows_g, rows_s) if g != r]
+
+
 def search(rng, rep, tier, disagreements):
-    return evaluate(cases(rng, "thorough"), rep, "thorough")["counterexamples"]
+    # targeted first: a table row that no longer matches the RFC snapshot -> packets of exactly that block size
+    out = []
+    try:
+        ks = [k for k in changed_table_rows() if k <= 1300][:4]
+    except (ValueError, OSError):
+        ks = []
+    if ks:
+        cs = []
+        for k in ks:
+            c = C.Case("enc_packets", [k, 1, 1, 1, 1, 3] + CG.rand_data(rng, k))
+            c.tag = "first"
+            cs.append(c)
+        out = evaluate(cs, rep, "quick")["counterexamples"]
+    if out:
+        return out
+    return evaluate(cases(rng, "quick")[:400], rep, "quick")["counterexamples"]
